@@ -28,6 +28,7 @@ func checkC08(e *Engine, r *Report) {
 		r.Undecided("anchor:allocatorHelper", "anchor", "allocatorHelper exists", "-", nil, "not found")
 		return
 	}
+	checkCacheGroupTotalsAligned(e, r)
 	fRes, fFrom, fCnt := e.Field(pkgCPUA, "allocatorHelper", "result"), e.Field(pkgCPUA, "allocatorHelper", "from"), e.Field(pkgCPUA, "allocatorHelper", "cnt")
 	allocateCpus := r.Anchor(pkgCPUA, "cpuAllocator.allocateCpus")
 	allocate := r.Anchor(pkgCPUA, "allocatorHelper.allocate")
@@ -1265,4 +1266,95 @@ func sameCountAtCall(load ssa.Value, call ssa.CallInstruction, writes func(ssa.I
 		}
 	}
 	return true
+}
+
+// takeCacheGroups builds totalByIndex while walking sorter.usable by index and later uses positions in that slice as
+// positions in sorter.usable (the number of groups to take, the group to split). The two stay aligned only if every
+// iteration that lets the walk go on appends one entry: an iteration may append or leave the loop, never skip.
+func checkCacheGroupTotalsAligned(e *Engine, r *Report) {
+	fn := r.Anchor(pkgCPUA, "allocatorHelper.takeCacheGroups")
+	if fn == nil {
+		return
+	}
+	const key = "R5:cache-group-totals-aligned"
+	const what = "takeCacheGroups: the running totals are indexed like sorter.usable — every iteration of the walk over sorter.usable that continues the walk appends one total (a group is never skipped without ending the walk)"
+	n := 0
+	for _, b := range fn.Blocks {
+		for _, in := range b.Instrs {
+			phi, ok := in.(*ssa.Phi)
+			if !ok {
+				break
+			}
+			sl, isSlice := phi.Type().Underlying().(*types.Slice)
+			if !isSlice {
+				continue
+			}
+			if bt, ok := sl.Elem().Underlying().(*types.Basic); !ok || bt.Kind() != types.Int {
+				continue
+			}
+			// the append that extends it within the loop
+			var app *ssa.Call
+			var latches []*ssa.BasicBlock
+			for i, ed := range phi.Edges {
+				found := false
+				Origins(ed, func(v ssa.Value) bool {
+					if v == ssa.Value(phi) {
+						found = true // a path that carries the slice unchanged is still a path round the loop
+						return true
+					}
+					if c, ok := v.(*ssa.Call); ok {
+						if bi, ok := c.Common().Value.(*ssa.Builtin); ok && bi.Name() == "append" && c.Common().Args[0] == ssa.Value(phi) {
+							app = c
+							found = true
+							return true
+						}
+					}
+					return false
+				})
+				if found {
+					latches = append(latches, b.Preds[i])
+				}
+			}
+			if app == nil || len(latches) == 0 {
+				continue
+			}
+			// the loop indexes sorter.usable with an index of the same header
+			usesUsable := false
+			for _, b2 := range fn.Blocks {
+				for _, in2 := range b2.Instrs {
+					ia, ok := in2.(*ssa.IndexAddr)
+					if !ok {
+						continue
+					}
+					if f, _ := loadedField(ia.X); f == nil || f.Name() != "usable" {
+						continue
+					}
+					if ip, ok := ia.Index.(*ssa.Phi); ok && ip.Block() == b && b2.Dominates(app.Block()) {
+						usesUsable = true
+					}
+				}
+			}
+			if !usesUsable {
+				continue
+			}
+			n++
+			isLatchEnd := func(x ssa.Instruction) bool {
+				for _, l := range latches {
+					if x.Block() == l && x == l.Instrs[len(l.Instrs)-1] {
+						return true
+					}
+				}
+				return false
+			}
+			p := FindPath(PathQuery{Fn: fn, From: phi, Block: func(x ssa.Instruction) bool { return x == ssa.Instruction(app) }, Target: isLatchEnd})
+			w := ""
+			if p != nil {
+				w = "an iteration goes on without appending: " + e.pathString(p)
+			}
+			r.Check(key, "R5 paired update", what, e.InstrPos(app), fn, p == nil, w, true)
+		}
+	}
+	if n == 0 {
+		r.Undecided(key, "R5 paired update", what, e.Pos(fn.Pos()), fn, "the walk that builds the running totals was not found")
+	}
 }
